@@ -359,6 +359,36 @@ def chunks(lst, n):
     return [lst[i : i + k] for i in range(0, len(lst), k)]
 
 
+def actnorm_scale_cases(seed):
+    """Data-dependent initialisation on badly scaled data (single precision): whatever the scale of the first
+    training batch - 1e-25 ... 1e20 per feature - that batch comes out with zero mean and unit variance."""
+    import warnings
+
+    warnings.filterwarnings("ignore")
+    import torch
+    from nflows import transforms as TR
+
+    n, fails = 0, []
+    g = torch.Generator().manual_seed(seed + 1)
+    for shape in ((64, 3), (16, 3, 2, 2)):
+        for scale in (1e-25, 1e-12, 1.0, 1e12, 1e20):
+            m = TR.ActNorm(3)
+            m.train()
+            x = (torch.randn(shape, generator=g) * torch.tensor([0.5, 1.0, 2.0]).reshape((1, 3) + (1,) * (len(shape) - 2)) + 0.3) * scale
+            n += 1
+            try:
+                with torch.no_grad():
+                    y, lad = m(x.clone())
+            except Exception as e:  # noqa
+                fails.append({"layer": "ActNorm", "clause": "init_on_scaled_data", "history": [["scale", repr(scale)], ["shape", repr(shape)]], "seed": seed, "variant": "scaled-data", "detail": "ActNorm first training-mode forward on data of scale %g raised %r" % (scale, e)})
+                continue
+            flat = y.transpose(0, 1).reshape(3, -1)
+            ok = bool(torch.isfinite(y).all()) and bool((flat.mean(1).abs() < 1e-3).all()) and bool(((flat.std(1) - 1).abs() < 1e-3).all())
+            if not ok:
+                fails.append({"layer": "ActNorm", "clause": "init_on_scaled_data", "history": [["scale", repr(scale)], ["shape", repr(shape)]], "seed": seed, "variant": "scaled-data", "detail": "ActNorm initialised by a batch of scale %g (shape %s): the batch comes out with per-feature mean %s and std %s (log_scale %s)" % (scale, tuple(shape), [round(float(v), 4) for v in flat.mean(1)], [round(float(v), 4) for v in flat.std(1)], [round(float(v), 2) for v in m.log_scale])})
+    return n, fails
+
+
 def flow_level_cases(seed):
     """The momentum rule at the level of the flows that place batch-norm layers between their stages: after training
     passes, EVERY batch-norm position holds the momentum blend of the statistics of ITS OWN inputs, and in evaluation
@@ -415,6 +445,11 @@ def main(run, replay=None):
         "layers with the state dict and results compared after every step; non-trivial = distinct edges whose action is a "
         "forward/inverse call or a save+load"
     )
+    if replay and replay["case"].get("variant") == "scaled-data":
+        for f in actnorm_scale_cases(replay["case"]["seed"])[1]:
+            if f["history"] == replay["case"]["history"]:
+                run.violation({"layer": f["layer"], "clause": f["clause"]}, "replayed: " + f["detail"], replay["case"])
+        return
     if replay and replay["case"].get("variant") == "flow-level":
         for f in flow_level_cases(replay["case"]["seed"])[1]:
             run.violation({"layer": f["layer"], "clause": f["clause"]}, "replayed: " + f["detail"], replay["case"])
@@ -491,6 +526,9 @@ def main(run, replay=None):
         w0 = walks[0][:6]
         run.sample({"layer": "BatchNorm", "momentum": str(mom), "walk_prefix": [[n, list(a), {"rm": [str(rat(q)) for q in d["rm"]], "rv": [str(rat(q)) for q in d["rv"]]}] for n, a, d in w0]})
     nfl, ffl = flow_level_cases(run.seed)
+    run.evaluations += nfl
+    fails += ffl
+    nfl, ffl = actnorm_scale_cases(run.seed)
     run.evaluations += nfl
     fails += ffl
     seen = set()
